@@ -1,4 +1,5 @@
 import ExoVerif.Proofs.Ledger
+import ExoVerif.Proofs.LedgerSlash
 /-!
 # C01 — Restaked-asset ledger conservation: no operation creates value
 
@@ -59,35 +60,62 @@ theorem C01_withdraw_value {s s' : L} {st : SID} {a0 : AID} {x : Int} (a : AID)
           show value s2 a = _
           rw [v2, v1]; split <;> omega
 
+theorem delegateCore_value {s s' : L} {st : SID} {a0 : AID} {o : OID} {x : Int} (a : AID)
+    (h : delegateCore s st a0 o x = .ok s') :
+    value s' a = value s a + (if a0 = a then x else 0) ∧ s'.escrow = s.escrow := by
+  unfold delegateCore at h
+  simp only [bind, Except.bind, pure, Except.pure] at h
+  split at h
+  · cases h
+  · rename_i share hshare
+    split at h
+    · cases h
+    · rename_i s2 h2
+      split at h
+      · cases h
+      · rename_i p3 h3
+        obtain ⟨s3, z⟩ := p3
+        injection h with h; subst h
+        obtain ⟨_, _, _, _, hs2⟩ := updPool_ok h2
+        obtain ⟨_, _, _, hs3⟩ := updDeleg_ok h3
+        refine ⟨?_, ?_⟩
+        · rw [value_appendStaker, value_updDeleg a h3, value_updPool a h2]
+        · have e3 : s3.escrow = s2.escrow := by rw [hs3]
+          have e2 : s2.escrow = s.escrow := by rw [hs2]
+          show (appendStaker s3 o a0 st).escrow = _
+          unfold appendStaker; simp only []; split <;> simp [e3, e2]
+
+/-- delegation moves value from the staker's withdrawable balance into the operator's pool; for
+the native token the funds enter the ledger from the staker's bank balance and the escrow account
+receives exactly as much -/
 theorem C01_delegate_value {s s' : L} {st : SID} {a0 : AID} {o : OID} {x : Int} (a : AID)
-    (h : delegate s st a0 o x = .ok s') : value s' a = value s a := by
+    (h : delegate s st a0 o x = .ok s') :
+    (a0 ≠ nativeAID → value s' a = value s a ∧ s'.escrow = s.escrow) ∧
+    (a0 = nativeAID → value s' a = value s a + (if a0 = a then x else 0) ∧ s'.escrow = s.escrow + x) := by
   unfold delegate at h
   simp only [bind, Except.bind, pure, Except.pure, throw, throwThe, MonadExceptOf.throw] at h
   split at h
   · cases h
   · split at h
     · cases h
-    · split at h
-      · cases h
-      · rename_i row hrow
+    · by_cases hn : a0 = nativeAID
+      · simp only [hn, if_true] at h
+        split at h
+        · cases h
+        · obtain ⟨v, e⟩ := delegateCore_value a h
+          refine ⟨fun h' => absurd hn h', fun _ => ⟨by rw [v]; simp [value, hn], by rw [e]⟩⟩
+      · simp only [hn, if_false] at h
         split at h
         · cases h
         · split at h
           · cases h
-          · rename_i s1 h1
-            split at h
+          · split at h
             · cases h
-            · rename_i share hshare
-              split at h
-              · cases h
-              · rename_i s2 h2
-                split at h
-                · cases h
-                · rename_i p3 h3
-                  obtain ⟨s3, z⟩ := p3
-                  injection h with h; subst h
-                  rw [value_appendStaker, value_updDeleg a h3, value_updPool a h2, value_updStaker a h1]
-                  split <;> omega
+            · rename_i s1 h1
+              obtain ⟨v, e⟩ := delegateCore_value a h
+              obtain he1 : s1.escrow = s.escrow := by rw [updStaker_ok h1]
+              refine ⟨fun _ => ⟨?_, by rw [e, he1]⟩, fun h' => absurd h' hn⟩
+              rw [v, value_updStaker a h1]; split <;> omega
 
 /-- undelegation moves value from the pool into exactly one pending record -/
 theorem C01_undelegate_value {s s' : L} {st : SID} {a0 : AID} {o : OID} {x : Int} {n : Nat} {hash : String}
@@ -96,8 +124,62 @@ theorem C01_undelegate_value {s s' : L} {st : SID} {a0 : AID} {o : OID} {x : Int
 
 /-- block end (completion of due records, re-queueing of held ones) moves value from records to
 withdrawable balances only -/
-theorem C01_endBlock_value {s : L} (hi : RecInv s) (a : AID) :
-    value (nextBlock (endBlock s)) a = value s a := (endBlock_spec hi).1 a
+theorem C01_endBlock_value {s : L} (hi : RecInv s) (a : AID) (ha : a ≠ nativeAID) :
+    value (nextBlock (endBlock s)) a = value s a := (endBlock_spec hi).1.1 a ha
+
+/-- native token: what a block end pays out of the escrow account is exactly what the completed
+records still owed, so the escrow's surplus over pools + pending amounts never shrinks at block end -/
+theorem C01_endBlock_escrow_surplus {s : L} (hi : RecInv s) :
+    (nextBlock (endBlock s)).escrow - value (nextBlock (endBlock s)) nativeAID
+      = s.escrow - value s nativeAID := (endBlock_spec hi).1.2
+
+/-- undelegation never touches the escrow account -/
+theorem C01_undelegate_escrow {s s' : L} {st : SID} {a0 : AID} {o : OID} {x : Int} {n : Nat} {hash : String}
+    (h : undelegate s st a0 o x n hash = .ok s') : s'.escrow = s.escrow := undelegate_escrow h
+
+/-- a slash never creates value for any asset and leaves the escrow account alone: the slashed
+native tokens stay escrowed (they are not burned), which only widens the escrow's surplus -/
+theorem C01_slash_value (s : L) (o : OID) (inf : Nat) (p : Dec) (a : AID) (hp : UnitP p)
+    (hr : RecsNonneg s.recs) (hpl : PoolsNonneg s.pools) :
+    value (slashAssets s o inf p) a ≤ value s a ∧ (slashAssets s o inf p).escrow = s.escrow := by
+  obtain ⟨cut, h0, h⟩ := slashAssets_value s o inf p a hp hr hpl
+  refine ⟨by omega, ?_⟩
+  unfold slashAssets
+  by_cases hh : inf < s.height <;> simp [hh]
+
+/-- For the native token the delegation escrow account always holds at least the pools plus the
+pending amounts: `escrow − value native` (the surplus) is an invariant lower-bounded by 0.
+One step of any modelled operation keeps `0 ≤ surplus`. -/
+def EscrowCovers (s : L) : Prop := value s nativeAID ≤ s.escrow
+
+theorem C01_escrow_covers_delegate {s s' : L} {st : SID} {a0 : AID} {o : OID} {x : Int}
+    (hc : EscrowCovers s) (h : delegate s st a0 o x = .ok s') : EscrowCovers s' := by
+  unfold EscrowCovers at *
+  obtain ⟨h1, h2⟩ := C01_delegate_value nativeAID h
+  by_cases hn : a0 = nativeAID
+  · obtain ⟨v, e⟩ := h2 hn
+    rw [v, e]; simp [hn]; omega
+  · obtain ⟨v, e⟩ := h1 hn
+    rw [v, e]; exact hc
+
+theorem C01_escrow_covers_undelegate {s s' : L} {st : SID} {a0 : AID} {o : OID} {x : Int} {n : Nat}
+    {hash : String} (hi : RecInv s) (hf : FreshNonce s n) (hc : EscrowCovers s)
+    (h : undelegate s st a0 o x n hash = .ok s') : EscrowCovers s' := by
+  unfold EscrowCovers at *
+  rw [C01_undelegate_value hi hf h, undelegate_escrow h]; exact hc
+
+theorem C01_escrow_covers_endBlock {s : L} (hi : RecInv s) (hc : EscrowCovers s) :
+    EscrowCovers (nextBlock (endBlock s)) := by
+  unfold EscrowCovers at *
+  have := C01_endBlock_escrow_surplus hi
+  omega
+
+theorem C01_escrow_covers_slash (s : L) (o : OID) (inf : Nat) (p : Dec) (hp : UnitP p)
+    (hr : RecsNonneg s.recs) (hpl : PoolsNonneg s.pools) (hc : EscrowCovers s) :
+    EscrowCovers (slashAssets s o inf p) := by
+  unfold EscrowCovers at *
+  obtain ⟨v, e⟩ := C01_slash_value s o inf p nativeAID hp hr hpl
+  rw [e]; omega
 
 theorem C01_hold_value (s : L) (k : RecKey) (a : AID) : value (hold s k) a = value s a := rfl
 
